@@ -75,6 +75,20 @@ def _index(stmts: list[ast.stmt], pred, what: str) -> int:
     return hits[0]
 
 
+def _prior_stmt(stmts: list[ast.stmt], what: str) -> tuple[int, str]:
+    """the statement `<name>[: float] = 0.0 if (variables := self.variables) is None else variables[-1].index[-1]`, found by
+    its VALUE: the local's name is the code's business (a renamed local is a harmless rewrite), what it holds is not"""
+    def pred(st):
+        if isinstance(st, ast.AnnAssign) and st.value is not None and isinstance(st.target, ast.Name):
+            return _u(st.value) == PRIOR
+        if isinstance(st, ast.Assign) and len(st.targets) == 1 and isinstance(st.targets[0], ast.Name):
+            return _u(st.value) == PRIOR
+        return False
+    i = _index(stmts, pred, what)
+    st = stmts[i]
+    return i, (st.target.id if isinstance(st, ast.AnnAssign) else st.targets[0].id)
+
+
 def _kw(call: ast.Call, name: str, what: str) -> ast.AST:
     for k in call.keywords:
         if k.arg == name:
@@ -118,11 +132,9 @@ def _sec_simulate(tree, f):
     b = _body(find_function(tree, "simulate", "Simulator"))
     if _u(b[0]) != "if len(self._errors) > 0:\n    return self":
         raise Unsupported(f"simulate: first statement `{_u(b[0])}`")
-    ip = _index(b, lambda s: isinstance(s, ast.AnnAssign) and _u(s.target) == "prior_t_end", "simulate: prior_t_end")
-    if _u(b[ip].value) != PRIOR:
-        raise Unsupported(f"simulate: prior_t_end = {_u(b[ip].value)}")
+    ip, prior = _prior_stmt(b, "simulate: the time reached (`0.0 if variables is None else variables[-1].index[-1]`)")
     ir = _index(b, _raises_value_error, "simulate: refusal")
-    f["simulateRefusal"] = _cmp(b[ir].test, "t_end", "prior_t_end", "simulate refusal")
+    f["simulateRefusal"] = _cmp(b[ir].test, "t_end", prior, "simulate refusal")
     ish = _shift_sub(b, "t_end", "simulate")
     ih, f["simulateSkipfirst"] = _handle_call(b, "self.integrator.integrate(t_end=t_end, steps=steps)", "simulate")
     if not (ip < ir and ir < ih and ish < ih):
@@ -136,11 +148,9 @@ def _sec_time_course(tree, f):
         raise Unsupported(f"simulate_time_course: first statement `{_u(b[0])}`")
     if _u(b[1]) != "time_points = np.array(time_points, dtype=float)":
         raise Unsupported(f"simulate_time_course: `{_u(b[1])}`")
-    ip = _index(b, lambda s: isinstance(s, ast.AnnAssign) and _u(s.target) == "prior_t_end", "time course: prior_t_end")
-    if _u(b[ip].value) != PRIOR:
-        raise Unsupported(f"simulate_time_course: prior_t_end = {_u(b[ip].value)}")
+    ip, prior = _prior_stmt(b, "time course: the time reached (`0.0 if variables is None else variables[-1].index[-1]`)")
     ir = _index(b, _raises_value_error, "time course: refusal")
-    f["timeCourseRefusal"] = _cmp(b[ir].test, "time_points[-1]", "prior_t_end", "time course refusal")
+    f["timeCourseRefusal"] = _cmp(b[ir].test, "time_points[-1]", prior, "time course refusal")
 
     def is_filter(s):
         return isinstance(s, ast.If) and "larger :=" in _u(s.test)
@@ -152,7 +162,7 @@ def _sec_time_course(tree, f):
           and isinstance(t.operand.func.value, ast.NamedExpr) and _u(t.operand.func.value.target) == "larger")
     if not ok or _u(b[ifl].body[-1]) != "time_points = time_points[larger]":
         raise Unsupported(f"time course: overlap filter `{_u(b[ifl])}`")
-    f["timeCourseKeep"] = _cmp(t.operand.func.value.value, "time_points", "prior_t_end", "time course overlap filter")
+    f["timeCourseKeep"] = _cmp(t.operand.func.value.value, "time_points", prior, "time course overlap filter")
     ish = _shift_sub(b, "time_points", "time course")
     ih, f["timeCourseSkipfirst"] = _handle_call(
         b, "self.integrator.integrate_time_course(time_points=time_points)", "time course")
@@ -220,8 +230,9 @@ def _sec_clear(tree, f):
     f["clearResetsShift"] = "self._time_shift = None" in b
     f["clearResetsErrors"] = "self._errors = []" in b
     rest = [s for s in b if s not in ("self._time_shift = None", "self._errors = []")]
-    if rest != ["self.variables = None", "self.dependent = None", "self.simulation_parameters = None",
-                "self._initialise_integrator()"]:
+    # the statements are independent of each other (attribute resets + a new integrator built from self.y0): any order
+    if sorted(rest) != sorted(["self.variables = None", "self.dependent = None", "self.simulation_parameters = None",
+                               "self._initialise_integrator()"]):
         raise Unsupported(f"clear_results: {rest}")
 
 
